@@ -365,4 +365,143 @@ theorem multi_bare (body : Body) (sN ctx : Str) (f : Nat) (r : Str) (line col : 
   rw [unquoted_dispatch dia f r line col hstart, L.bind_ok hscan]
   simp [finishUnquoted, hcv, mkTok]
 
+/-! ### text fields: the position changes line inside the token -/
+
+/-- scan_text (any state of its begin-of-line automaton in front; not at the beginning of a line behind) -/
+def EvText (dia : Dialect) (e : Ev) : Prop :=
+  (∀ (R : Str) (line col : Nat) (acc : Str) (sol : Nat) (log : List Report),
+    scanText dia (e.inp ++ R) line col false acc sol acceptAll log
+      = scanText dia R line (col + e.adv) false (e.out.reverse ++ acc) 0 acceptAll (e.reps line col ++ log))
+  ∧ e.out ≠ [] ∧ e.out.getLast? ≠ some 13
+
+theorem EvText.of1 {c c' : Nat} {reps : Nat → Nat → List Report} (hD : Defect1 dia c c' reps) : EvText dia (Ev.of1 c c' reps) := by
+  refine ⟨?_, by simp [Ev.of1], by simp [Ev.of1, hD.ne13]⟩
+  intro R line col acc sol log
+  simpa [Ev.of1] using hD.text_step R line col acc sol log
+
+theorem EvText.lead (l x : Nat) (hl : isLeadU l = true) (hx : plainUnit x) (heol : classOf .cif2 x ≠ .eol) (h13 : x ≠ 13) :
+    EvText .cif2 (Ev.lead l x) := by
+  refine ⟨?_, by simp [Ev.lead], by simp [Ev.lead, h13]⟩
+  intro R line col acc sol log
+  obtain ⟨e1, e2⟩ := lead_then_plain l x hl hx line col acc log
+  have hl1 : ¬ classOf .cif2 l = .semi := by rw [lead_cls l hl]; decide
+  have hl2 : ¬ classOf .cif2 l = .eol := by rw [lead_cls l hl]; decide
+  simp only [Ev.lead, List.cons_append, List.nil_append]
+  conv => lhs; simp only [scanText, bind_eq, pure_eq]
+  rw [L.bind_ok e1]
+  simp only [fixAcc_false, hl1, hl2, if_false]
+  conv => lhs; simp only [scanText, bind_eq, pure_eq]
+  rw [L.bind_ok e2]
+  by_cases hs : classOf .cif2 x = .semi
+  · simp [fixAcc, replChar, hs]
+  · simp [fixAcc, replChar, hs, heol]
+
+/-- the position behind a body that starts at `(line, col)` -/
+def Body.tpos : Nat → Nat → Body → Nat × Nat
+  | line, col, [] => (line, col)
+  | line, col, (s, e) :: r => Body.tpos (posAfter line col s).1 ((posAfter line col s).2 + e.adv) r
+
+/-- the reports of a body that may span lines, newest first -/
+def Body.treps : Nat → Nat → Body → List Report
+  | _, _, [] => []
+  | line, col, (s, e) :: r =>
+    Body.treps (posAfter line col s).1 ((posAfter line col s).2 + e.adv) r ++ e.reps (posAfter line col s).1 (posAfter line col s).2
+
+/-- the runs are admissible text-field content whose lines fit, the events are events of scan_text -/
+def Body.textOk (dia : Dialect) : Nat → Nat → Body → Prop
+  | _, _, [] => True
+  | line, col, (s, e) :: r =>
+    Spec.Lexical.textOk dia s = true ∧ linesFit col s = true ∧ EvText dia e
+      ∧ Body.textOk dia (posAfter line col s).1 ((posAfter line col s).2 + e.adv) r
+
+theorem getLast?_append_ne {α} (a b : List α) (h : b ≠ []) : (a ++ b).getLast? = b.getLast? := by
+  rw [List.getLast?_append]
+  cases hb : b.getLast? with
+  | none => rw [List.getLast?_eq_none_iff] at hb; exact absurd hb h
+  | some x => simp
+
+theorem Body.out_ne {body : Body} (hne : body ≠ []) (h : ∀ p ∈ body, p.2.out ≠ []) : body.out ≠ [] := by
+  cases body with
+  | nil => exact absurd rfl hne
+  | cons p r =>
+    obtain ⟨s, e⟩ := p
+    have := h (s, e) List.mem_cons_self
+    simp [Body.out, this]
+
+theorem Body.out_last : ∀ (body : Body), (∀ p ∈ body, p.2.out ≠ [] ∧ p.2.out.getLast? ≠ some 13) → body.out.getLast? ≠ some 13
+  | [], _ => by simp [Body.out]
+  | (s, e) :: r, h => by
+    have h1 := h (s, e) List.mem_cons_self
+    have ih := Body.out_last r (fun p hp => h p (List.mem_cons_of_mem _ hp))
+    by_cases hr : r = []
+    · subst hr
+      simp only [Body.out, List.append_nil]
+      rw [getLast?_append_ne _ _ h1.1]
+      exact h1.2
+    · have hne := Body.out_ne hr (fun p hp => (h p (List.mem_cons_of_mem _ hp)).1)
+      simp only [Body.out]
+      rw [getLast?_append_ne _ _ (by simp [hne]), getLast?_append_ne _ _ hne]
+      exact ih
+
+theorem Body.textOk_evs : ∀ (body : Body) (line col : Nat), Body.textOk dia line col body →
+    ∀ p ∈ body, p.2.out ≠ [] ∧ p.2.out.getLast? ≠ some 13
+  | [], _, _, _ => by intro p hp; cases hp
+  | (s, e) :: r, line, col, h => by
+    intro p hp
+    rcases List.mem_cons.mp hp with rfl | hp
+    · exact ⟨h.2.2.1.2.1, h.2.2.1.2.2⟩
+    · exact Body.textOk_evs r _ _ h.2.2.2 p hp
+
+theorem multi_text_scan : ∀ (body : Body) (R : Str) (line col : Nat) (acc : Str) (log : List Report),
+    Body.textOk dia line col body →
+    scanText dia (body.inp ++ R) line col false acc 0 acceptAll log
+      = scanText dia R (body.tpos line col).1 (body.tpos line col).2 false (body.out.reverse ++ acc) 0 acceptAll
+          (body.treps line col ++ log)
+  | [], R, line, col, acc, log, _ => by simp [Body.inp, Body.out, Body.tpos, Body.treps]
+  | (s, e) :: r, R, line, col, acc, log, h => by
+    obtain ⟨h1, h2, h3, h4⟩ := h
+    simp only [Spec.Lexical.textOk, Bool.and_eq_true] at h1
+    obtain ⟨sol', _, hp⟩ := scanText_prefix dia (e.inp ++ (Body.inp r ++ R)) acceptAll log s none acc line col 0 h1.1 trivial
+      (by simpa using h1.2) (by decide) h2
+    simp only [Option.isSome_none] at hp
+    have ih := multi_text_scan r R (posAfter line col s).1 ((posAfter line col s).2 + e.adv) (e.out.reverse ++ (s.reverse ++ acc))
+      (e.reps (posAfter line col s).1 (posAfter line col s).2 ++ log) h4
+    simp only [Body.inp, List.append_assoc]
+    rw [hp, h3.1, ih]
+    simp [Body.out, Body.tpos, Body.treps, List.append_assoc]
+
+/-- **a text field with any number of defective places, on any of its lines** -/
+theorem multi_text (body : Body) (sN ctx : Str) (line : Nat) (log : List Report)
+    (hb : Body.textOk dia line 1 body) (hN : Spec.Lexical.textOk dia sN = true)
+    (hfit : linesFit (body.tpos line 1).2 (sN ++ [10]) = true) (hctx : followOk dia ctx = true) :
+    stepTok dia true 59 (body.inp ++ (sN ++ 10 :: 59 :: ctx)) line 0 acceptAll log
+      = .ok (.tok ⟨.tvalue, body.out ++ sN, (posAfter (body.tpos line 1).1 (body.tpos line 1).2 sN).1 + 1, 1⟩
+                  ⟨ctx, (posAfter (body.tpos line 1).1 (body.tpos line 1).2 sN).1 + 1, 1⟩)
+          (body.treps line 1 ++ log) := by
+  simp only [Spec.Lexical.textOk, Bool.and_eq_true] at hN
+  have hlast : (body.out.reverse ++ ([] : Str)).head? ≠ some 13 := by
+    have := Body.out_last body (Body.textOk_evs body line 1 hb)
+    simpa [List.head?_reverse] using this
+  have hscan : scanText dia (body.inp ++ (sN ++ 10 :: 59 :: ctx)) line 1 false [] 0 acceptAll log
+      = .ok ⟨(body.out ++ sN).reverse, ⟨ctx, (posAfter (body.tpos line 1).1 (body.tpos line 1).2 sN).1 + 1, 1⟩⟩
+          (body.treps line 1 ++ log) := by
+    rw [multi_text_scan body _ line 1 [] log hb]
+    have := scanText_ok dia ctx acceptAll (body.treps line 1 ++ log) sN none (body.out.reverse ++ [])
+      (body.tpos line 1).1 (body.tpos line 1).2 0 hN.1 trivial (by simpa using hN.2) (by decide) hfit hlast
+    simp only [Option.isSome_none] at this
+    rw [this]
+    simp
+  rw [text_dispatch, L.bind_ok hscan]
+  have hcol : ∀ d r, ctx = d :: r → ¬ d = colon := by
+    intro d r h
+    subst h
+    simp only [followOk, isWs, isBlank, isEol, Bool.or_eq_true, beq_iff_eq, Bool.and_eq_true] at hctx
+    simp only [colon]; omega_cu
+  cases dia with
+  | cif1 => simp [mkTok]
+  | cif2 =>
+    cases ctx with
+    | nil => simp [keyPeek, mkTok]
+    | cons d r => simp [keyPeek, mkTok, hcol d r rfl]
+
 end CifModel.Model.Lexer
